@@ -364,6 +364,12 @@ def _t_rtup(line, arg=None):
     return '%slet mut verif_it_%s_%s = 0; while verif_it_%s_%s < %s.len()' % (ind, a, b, a, b, v)
 
 
+def _t_neut(line, arg=None):
+    """Rneut: `Point(M128(0), self.one, self.one)` -> `ol_neutral128(self)` (constructor of a tuple struct that stays opaque
+    to Verus: outlined, assumed to stand for the neutral element)"""
+    return line.replace('Point(M128(0), self.one, self.one)', 'ol_neutral128(self)')
+
+
 def _t_zn(line, arg=None):
     """Rzn: `zn.n` -> `ol_zn_n(zn)` (public field of a struct whose other fields are private: opaque to Verus outside
     its module; outlined accessor)"""
@@ -376,11 +382,11 @@ def _t_try(line, arg=None):
     return re.sub(r'\b(\w+)\.try_into\(\) == Ok\(([^()]+)\)', r'ol_uint_eq_u64(\1, \2)', line)
 
 
-TRANSFORMERS = [('Rzn', _t_zn), ('Rtup', _t_rtup), ('Rmul', _t_mulassign), ('Rconst', _t_one_const), ('Rref', _t_rref), ('Rtry', _t_try), ('Rverb', _t_verb), ('Rvec', _t_rvec), ('Rone', _t_one_shl), ('Rdiv', _t_opassign), ('R10', _t_r10), ('Rit', _t_forit), ('Rfor', _t_forname), ('R8', _t_r8), ('Rsort', _t_sort), ('R7', _t_r7), ('R1', _t_r1), ('R1u', _t_unsafe), ('ret', _t_ret), ('brace', _t_brace)]
+TRANSFORMERS = [('Rneut', _t_neut), ('Rzn', _t_zn), ('Rtup', _t_rtup), ('Rmul', _t_mulassign), ('Rconst', _t_one_const), ('Rref', _t_rref), ('Rtry', _t_try), ('Rverb', _t_verb), ('Rvec', _t_rvec), ('Rone', _t_one_shl), ('Rdiv', _t_opassign), ('R10', _t_r10), ('Rit', _t_forit), ('Rfor', _t_forname), ('R8', _t_r8), ('Rsort', _t_sort), ('R7', _t_r7), ('R1', _t_r1), ('R1u', _t_unsafe), ('ret', _t_ret), ('brace', _t_brace)]
 
 
 # line-local normalisations that need no accompanying ghost text: applied to current lines that have no pinned counterpart
-FREE = ('R1', 'R1u', 'Rconst', 'Rmul', 'Rdiv', 'Rverb', 'Rtry', 'Rone', 'Rsort', 'R8', 'Rzn')
+FREE = ('R1', 'R1u', 'Rconst', 'Rmul', 'Rdiv', 'Rverb', 'Rtry', 'Rone', 'Rsort', 'R8', 'Rzn', 'Rneut')
 
 
 def free_normalise(line):
@@ -444,6 +450,7 @@ def key(line):
     s = re.sub(r'ol_uint_one_shl\(([^()]*)\)', r'Uint::ONE << (\1)', s)
     s = s.replace('ol_verbosity(prefs)', 'prefs.verbosity')
     s = s.replace('ol_zn_n(zn)', 'zn.n')
+    s = s.replace('ol_neutral128(self)', 'Point(M128(0), self.one, self.one)')
     s = re.sub(r'ol_uint_eq_u64\((\w+), ([^()]+)\)', r'\1.try_into() == Ok(\2)', s)
     md = re.match(r'^(\w+) = (\w+) / (.+);$', s)
     if md and md.group(1) == md.group(2):
